@@ -90,6 +90,18 @@ theorem mem_set {st : Status} {i j : Identity} {r r' : Rec} :
       · exact Or.inr ⟨rfl, rfl⟩
       · exact Or.inl hm
 
+theorem mem_patch_other {st : Status} {i j : Identity} {r : Rec} {v : Option Rec} (h : j ≠ i) :
+    (i, r) ∈ st.patch j v ↔ (i, r) ∈ st := by
+  cases v with
+  | none => simp only [Status.patch, mem_erase]; exact ⟨fun x => x.1, fun x => ⟨x, fun e => h e.symm⟩⟩
+  | some r' =>
+    simp only [Status.patch, mem_set]
+    constructor
+    · rintro (⟨e, _⟩ | ⟨_, hm⟩)
+      · exact absurd e.symm h
+      · exact hm
+    · intro hm; exact Or.inr ⟨fun e => h e.symm, hm⟩
+
 theorem touchVal_zero (u prio : Int) (now : Int) : touchVal u prio 0 now = none := by
   simp [touchVal, Rec.dead, Rec.deadline]
 
@@ -119,7 +131,7 @@ theorem exit_spec {u : Int} {s s1 : State} {a : Identity} (h : step u s (.exit a
 
 theorem kill_spec {u : Int} {s s1 : State} {a : Identity} (h : step u s (.kill a) = some s1) :
     ∃ o, s.ops a = some o ∧ o.alive = true ∧ s1.now = s.now ∧ s1.status = s.status ∧
-      s1.ops = updOp s.ops a { o with alive := false } := by
+      s1.ops = updOp s.ops a { o with alive := false, sleeping := false } := by
   simp only [step] at h
   cases hk : s.ops a with
   | none => simp [hk] at h
